@@ -125,6 +125,13 @@ Proof.
   intros H. split; apply N.eqb_neq; intros ->; vm_compute in H; discriminate.
 Qed.
 
+(* the depths of the content lines relate to the indentation of the cleaned lines as C12 says *)
+Definition nesting_ok (cleaned_lines out_lines : list str) : Prop :=
+  match levels cleaned_lines with
+  | [] => True
+  | w0 :: ws => w0 = 0%Z /\ exists ds, line_depths 0 out_lines = 0%nat :: ds /\ follows w0 0 ws ds
+  end.
+
 Theorem finish_nf t2 :
   Forall Q t2 ->
   match t2 with [] => True | c :: _ => py_isspace c = false end ->
@@ -134,6 +141,7 @@ Theorem finish_nf t2 :
             | [] => o = []
             | _ :: _ => exists ls, o = unlines ls /\ NFlines ls
                                    /\ content_lines ls = map (fun l => lstrip is_sp (rstrip is_sp l)) (split_on NL t2)
+                                   /\ nesting_ok (map (rstrip is_sp) (split_on NL t2)) ls
             end.
 Proof.
   intros HQ Hhd Hlast. destruct t2 as [|c r].
@@ -173,13 +181,13 @@ Proof.
     rewrite E3 in C3. cbn [forallb] in C3. apply andb_true_iff in C3 as [C0 Cr].
     destruct (clean_body _ _ _ _ C0 Es) as (LOb & NI & ND).
     rewrite process_snoc_nil.
-    destruct (process_good rest3 [] Cr ltac:(constructor)) as (out & us' & Ep & P & LO & W & CL).
-    change ([] ++ base) with [0%Z; (-1)%Z] in Ep. rewrite Ep.
+    destruct (process_good rest3 [] 0%Z 0%Z Cr eq_refl) as (out & us' & b' & ds & Ep & LO & W & CL & F & D).
+    change ([] ++ bot 0) with [0%Z; (-1)%Z] in Ep. rewrite Ep.
     eexists. split; [reflexivity|].
     exists ((c :: l3) :: out ++ repeat [DEDENT_C] (length us')).
-    split; [|split].
+    split; [|split; [|split]].
     + (* the text *)
-      rewrite app_length. cbn [base length]. 
+      rewrite app_length. cbn [bot length]. 
       replace (length us' + 2 - 1)%nat with (S (length us')) by lia.
       rewrite deds_unlines. rewrite repeat_snoc.
       change (map marker_line [MInd] ++ (c :: l3) :: out ++ [[]])
@@ -212,6 +220,12 @@ Proof.
       replace (lstrip is_sp (rstrip is_sp (c :: l0))) with (c :: l3).
       2:{ rewrite rstrip_hd by exact HcSP. simpl. unfold is_sp. rewrite HcSP. reflexivity. }
       f_equal. unfold rest3. rewrite map_map. reflexivity.
+    + (* nesting *)
+      unfold nesting_ok. cbn [levels flat_map]. rewrite Es.
+      cbn [app Z.of_nat]. fold (levels rest3). split; [reflexivity|]. exists ds. split; [|exact F].
+      cbn [line_depths]. rewrite NI, ND. f_equal. cbn [length] in D. rewrite D.
+      rewrite <- (app_nil_r (repeat [DEDENT_C] (length us'))). rewrite line_depths_deds.
+      simpl. apply app_nil_r.
 Qed.
 
 Definition cleaned (size : nat) (s : str) : str := strip py_isspace (expand_tabs size s).
@@ -223,6 +237,7 @@ Theorem pre_parse_nf_lines size s :
     | [] => o = []
     | _ :: _ => exists ls, o = unlines ls /\ NFlines ls
                   /\ content_lines ls = map (fun l => lstrip is_sp (rstrip is_sp l)) (split_on NL (cleaned size s))
+                  /\ nesting_ok (map (rstrip is_sp) (split_on NL (cleaned size s))) ls
     end.
 Proof.
   intros Ha. rewrite pre_parse_unfold. fold (cleaned size s).
@@ -243,3 +258,28 @@ Proof.
   - right. destruct H as (ls & E1 & E2 & _). eauto.
 Qed.
 
+
+Theorem pre_parse_keeps_lines size s :
+  alphabet_ok s = true ->
+  exists o, pre_parse size s = Some o /\
+    match cleaned size s with
+    | [] => o = []
+    | _ :: _ => exists ls, o = unlines ls /\ NFlines ls
+                  /\ content_lines ls = map (fun l => lstrip is_sp (rstrip is_sp l)) (split_on NL (cleaned size s))
+    end.
+Proof.
+  intros Ha. destruct (pre_parse_nf_lines size s Ha) as (o & E & H).
+  exists o. split; [exact E|]. destruct (cleaned size s); [exact H|].
+  destruct H as (ls & H1 & H2 & H3 & _). eauto.
+Qed.
+
+Theorem pre_parse_nesting size s :
+  alphabet_ok s = true ->
+  exists o, pre_parse size s = Some o /\
+    (cleaned size s = [] \/
+     exists ls, o = unlines ls /\ nesting_ok (map (rstrip is_sp) (split_on NL (cleaned size s))) ls).
+Proof.
+  intros Ha. destruct (pre_parse_nf_lines size s Ha) as (o & E & H).
+  exists o. split; [exact E|]. destruct (cleaned size s); [left; reflexivity|right].
+  destruct H as (ls & H1 & _ & _ & H4). eauto.
+Qed.
